@@ -294,6 +294,11 @@ def gen_projects(rng: random.Random, tier: str) -> list[dict]:
             # following the real stdlib is documented as unreliable under CPython: keep to modules without extension imports
             files = {k: v.replace("import json\n", "").replace("import os\n", "") for k, v in files.items()}
         excl = rng.choice([None, None, ["m1"], ["pkg\\..*"], ["pkg"], ["other.*", "m2"], ["pipmod"], [".*sub.*"]])
+        if follow == 3 and i % 2 == 0:
+            # an exclusion pattern that names a standard library module the target imports (no random draw: the stream of
+            # the other projects stays as it is)
+            excl = (excl or []) + ["colorsys"]
+            files["target.py"] = "import colorsys\n" + files["target.py"]
         out.append({"name": f"graph_{i}", "kind": "graph", "prog": prog, "files": files, "refs": sp["refs"], "place": sp["place"],
                     "follow": follow, "exclude_imports": excl, "extra": {"extra_imports": extra_imports}})
     return out
